@@ -509,6 +509,46 @@ def check_reverse(chk, prog, unit, doubly):
                      if x.get("k") == "assign" and x.get("op") == "=")
             chk.ob("L4", f.name, "reverse-updates:" + fld, ok, loc=f.loc(f.body),
                    detail="%s reverses the chain but never updates self->%s" % (f.name, fld), proof="self->%s is stored" % fld)
+        if doubly and f.cfg is not None:
+            # the new last node is the node that was first: the value stored into self->tail is the head the list had on entry
+            # (self->head read before any store to it, or a local that was given that value) - must-dataflow of who holds it
+            cfg = nullness.prepared_cfg(f, NORETURN)
+            selfd = f.params[0]["d"] if f.params else None
+
+            def is_field(e, fld):
+                s_ = X.strip(e)
+                return s_ is not None and s_.get("k") == "member" and s_.get("n") == fld and (X.strip(s_["ch"][0]) or {}).get("d") == selfd
+
+            def holds_old_head(state, e):
+                s_ = X.strip(e)
+                if s_ is None:
+                    return False
+                if is_field(s_, "head"):
+                    return ("field",) in state
+                return s_.get("k") == "ref" and ("loc", s_.get("d")) in state
+            results = []
+
+            def transfer(state, x, blk):
+                if x.get("k") == "assign" and x.get("op") == "=":
+                    l = X.strip(x["ch"][0])
+                    r = final_rhs(x)
+                    if is_field(l, "head"):
+                        return frozenset(y for y in state if y != ("field",))
+                    if l is not None and l.get("k") == "ref" and l.get("rk") == "local":
+                        st = frozenset(y for y in state if y != ("loc", l["d"]))
+                        return st | {("loc", l["d"])} if holds_old_head(state, r) else st
+                return state
+
+            def visit(state, x, blk):
+                if x.get("k") == "assign" and x.get("op") == "=" and is_field(X.strip(x["ch"][0]), "tail"):
+                    results.append((x, holds_old_head(state, final_rhs(x))))
+            flow.forward(cfg, frozenset({("field",)}), transfer, visit=visit)
+            for x, ok in results:
+                chk.ob("L4", f.name, "new-tail-is-old-head:" + canon(f, x)[:30], ok, loc=f.loc(x),
+                       detail="%s stores %s into self->tail, which is not (provably) the node that was the head on entry: after the "
+                              "reversal the last node is the old first one - with anything else append / get from the end / remove "
+                              "of the last element work on the wrong node" % (f.name, X.render(final_rhs(x))[:30]),
+                       proof="the stored value is self->head read before any store to it (or a local holding that value)")
     return n
 
 
